@@ -37,3 +37,17 @@ package parsing
 //@   ensures ops.OpConcat.Precedence() < ops.OpAdd.Precedence() && ops.OpAdd.Precedence() == ops.OpSub.Precedence() && ops.OpAdd.Precedence() < ops.OpMul.Precedence()
 //@   ensures ops.OpMul.Precedence() == ops.OpDiv.Precedence() && ops.OpMul.Precedence() == ops.OpFloorDiv.Precedence() && ops.OpMul.Precedence() == ops.OpMod.Precedence()
 //@   ensures ops.OpMul.Precedence() < ops.OpNeg.Precedence() && ops.OpNeg.Precedence() == ops.OpNot.Precedence() && ops.OpNeg.Precedence() == ops.OpLen.Precedence() && ops.OpNeg.Precedence() == ops.OpBitNot.Precedence() && ops.OpNeg.Precedence() < ops.OpPow.Precedence()
+
+// C12 / C01 (manual §3.4.12: "any expression enclosed in parentheses always
+// results in only one value"): what the parser builds for `( exp )` is never an
+// expression that expands to several values in a tail position - neither a
+// function call nor the vararg expression `...`.  (The case body is extracted
+// verbatim from PrefixExp.)
+//@ fragment paren_exp of (*Parser).PrefixExp at switch t.Type/case token.SgOpenBkt
+//@   prop C12
+//@   arith int
+//@   norte
+//@   nocover
+//@   modifies everything()
+//@   exits any
+//@   ensures fragNext ==> !typeis(fragOut_exp, ast.FunctionCall) && !typeis(fragOut_exp, ast.Etc)
